@@ -321,6 +321,47 @@ def _same_block(root, a, b):
     return False
 
 
+def ast_den(P, t):
+    """Denotation of a term that stands for an AST built from dag_ast's node
+    constructors: [(guards, loops, leaf statement term)] in execution order; a
+    guard is a condition term or ("not", term); None if the term is no AST."""
+    from ..engine import symeval as se
+    from .c06 import _slots
+    slots = {c: _slots(P, c) for c in ("ForLoop", "IfThenElse", "IfThen", "StatementWrapper")}
+
+    def walk(t, guards, loops):
+        if t[0] != "call" or t[1][0] != "name":
+            return None
+        cname = t[1][1].split(".")[-1]
+        if cname == "NullASTNode":
+            return []
+        if cname == "Block":
+            out = []
+            for x in t[2]:
+                r = walk(x, guards, loops)
+                if r is None:
+                    return None
+                out += r
+            return out
+        if cname not in slots:
+            return None
+        d = dict(zip(slots[cname], t[2]))
+        d.update(dict(t[3]))
+        if cname == "StatementWrapper":
+            return [(guards, loops, d.get("statement"))]
+        if cname == "ForLoop":
+            return walk(d.get("body", se.NONE), guards,
+                        loops + (("tuple", (d.get("loop_var_name"), d.get("lbound"), d.get("ubound"))),))
+        c = d.get("condition")
+        a = walk(d.get("then", se.NONE), guards + ((c, len(loops)),), loops)
+        b = walk(d["else_"], guards + ((("not", c), len(loops)),), loops) if "else_" in d else []
+        if a is None or b is None:
+            return None
+        return a + b
+
+    return walk(t, (), ())
+
+
 def lowering_table(run, P, rule):
     """What create_ast_from_phase builds for one statement, case by case
     (symbolic evaluation of the lowering helpers): guard or none x 0, 1, 2
